@@ -47,11 +47,22 @@ func c01Bursts(r *hx.Run, w *W, ps *plans, rnd *rand.Rand, n int) {
 			models[i] = &entryModel{TolerateStale: true}
 		}
 		a := ans{Kind: "cacheable", T: t}
+		method := "GET"
+		if bi%5 == 4 {
+			method = "HEAD" // its own key; coalesced and cached like GET
+			r.Add("head_bursts", 1)
+		}
 		for e := 0; e < epochs; e++ {
 			early := rnd.Intn(4) == 0
 			gate := make(chan struct{})
 			for _, u := range uris {
-				ps.set(u, &plan{Seq: []ans{a}, Gate: func(*hx.Fetch) <-chan struct{} { return gate }})
+				// (only the GET/HEAD fetch is held: an unsafe request on the same URI passes straight through)
+				ps.set(u, &plan{Seq: []ans{a}, Gate: func(f *hx.Fetch) <-chan struct{} {
+					if f.Method != "GET" && f.Method != "HEAD" {
+						return nil
+					}
+					return gate
+				}})
 			}
 			if early {
 				close(gate)
@@ -68,16 +79,40 @@ func c01Bursts(r *hx.Run, w *W, ps *plans, rnd *rand.Rand, n int) {
 				wg.Add(1)
 				go func(i int, u string) {
 					defer wg.Done()
-					results[i] = burst(w, nClients, hx.Req{Addr: w.Addr, Host: "c01.example", URI: u})
+					results[i] = burst(w, nClients, hx.Req{Method: method, Addr: w.Addr, Host: "c01.example", URI: u})
 				}(i, u)
 			}
 			parked := true
+			var late *hx.Result
 			if !early {
 				want := int64(k * (nClients - 1))
 				parked = hx.WaitUntil(10*time.Second, func() bool { return w.Pts.Count("get.registered")-baseReg >= want })
-				close(gate)
+				if parked && bi%6 == 2 {
+					// while the fetch is in flight an unsafe request for the same URI passes through, then one
+					// more request for the key arrives: it waits for the fetch like the others
+					post := w.Cl.Do(hx.Req{Method: "POST", Addr: w.Addr, Host: "c01.example", URI: uris[0], Body: []byte("x")})
+					if post.Err == nil {
+						r.Add("unsafe_requests_on_the_key_during_its_fetch", 1)
+					}
+					regBefore := w.Pts.Count("get.registered")
+					lateDone := make(chan struct{})
+					go func() {
+						defer close(lateDone)
+						late = w.Cl.Do(hx.Req{Method: method, Addr: w.Addr, Host: "c01.example", URI: uris[0]})
+					}()
+					hx.WaitUntil(5*time.Second, func() bool {
+						return w.Pts.Count("get.registered") > regBefore || w.Farm.InflightKey(method+" c01.example "+uris[0]) > 1
+					})
+					close(gate)
+					<-lateDone
+				} else {
+					close(gate)
+				}
 			}
 			wg.Wait()
+			if late != nil {
+				results[0] = append(results[0], late)
+			}
 			w.Pts.Record(false)
 			ev := w.Pts.TakeEvents()
 			sig := interleavingSig(ev)
@@ -92,7 +127,7 @@ func c01Bursts(r *hx.Run, w *W, ps *plans, rnd *rand.Rand, n int) {
 			for i, u := range uris {
 				var fs []*hx.Fetch
 				for _, f := range fetches {
-					if f.URI == u {
+					if f.URI == u && f.Method == method {
 						fs = append(fs, f)
 					}
 				}
@@ -445,7 +480,7 @@ func c01Porcupine(r *hx.Run, w *W, ps *plans, rnd *rand.Rand, n int) {
 }
 
 func c01(r *hx.Run) {
-	r.Rule = "bursts: 1-4 keys x {2..64} identical concurrent requests x 1-3 epochs, the fetch held at the origin until the hook counter shows all other requests parked (1/4 released early), jitter at 4 hook points, judged by the origin in-flight monitor and per-epoch exactly-once accounting; directed: waiter held between wake-up and resumption while the entry expires and a new fetcher starts; failed fetches: the one contact of a burst hangs past the proxy timeout, resets the connection or sends half a body - no client request may reach the upstream twice; porcupine: 8 staggered clients + a concurrent clock advancer, per-key linearizability. Non-trivial = burst with >=1 parked waiter; distinct = interleaving signature (hash of the (goroutine role, hook point) sequence) / directed outcome / porcupine partition with >=2 epochs."
+	r.Rule = "bursts: 1-4 keys x {2..64} identical concurrent GET (every fifth burst HEAD) requests x 1-3 epochs, in some an unsafe request on the same URI passes through during the fetch and a late request follows, the fetch held at the origin until the hook counter shows all other requests parked (1/4 released early), jitter at 4 hook points, judged by the origin in-flight monitor and per-epoch exactly-once accounting; directed: waiter held between wake-up and resumption while the entry expires and a new fetcher starts; failed fetches: the one contact of a burst hangs past the proxy timeout, resets the connection or sends half a body - no client request may reach the upstream twice; porcupine: 8 staggered clients + a concurrent clock advancer, per-key linearizability. Non-trivial = burst with >=1 parked waiter; distinct = interleaving signature (hash of the (goroutine role, hook point) sequence) / directed outcome / porcupine partition with >=2 epochs."
 	r.Assume = []string{"virtual clock through the cache.nowUnix hook", "no eviction: cache size 100000 >> keys (asserted by the eviction hook)", "-race build"}
 	rnd := rand.New(rand.NewSource(r.Seed))
 	w := newSimpleWorld(r, hx.SimpleCfg{CacheName: "c01"}, 1, true)
